@@ -140,3 +140,7 @@ Theorem C06_cflist_masks_at_most_six : forall c l,
   exists ms, cf_payload l = CFPMasks ms /\ (length ms <= 6)%nat.
 Proof. exact cflist_masks_at_most_six. Qed.
 Print Assumptions C06_cflist_masks_at_most_six.
+(* That the value decoded from ANY 16 octets of the channel-mask type is accepted by the encoder and
+   encodes to the twelve mask octets followed by zero RFU octets is C16_cflist_masks_any_rfu
+   (props/C16.v, Backend/JoinServerCFList.cflist_masks_decode); every run evaluates the same
+   statement on observed output (Corr/C06.v, case CCFListDec). *)
